@@ -1014,6 +1014,8 @@ class IkeSa(object):
             self.log_warning(str(ex))
         except IkeSaError as ex:
             self.log_warning(f'Peer created an invalid CHILD_SA: {ex}. Deleting it')
+            # the IKE_SA itself is authenticated at this point: the delete exchange starts from ESTABLISHED
+            self.state = IkeSa.State.ESTABLISHED
             return self.generate_delete_child_sa_request(self.creating_child_sa)
         self.state = IkeSa.State.ESTABLISHED
         return None
